@@ -817,3 +817,4 @@ pub proof fn lemma_cut_left_goals(h: Heap, n: int)
 {
     lemma_unfold_me(h, n);
 }
+pub open spec fn ssv<'a>(r: Rc<SubstitutionSet<'a>>) -> SubstitutionSet<'static> { *r }
